@@ -72,7 +72,7 @@ package iterator
 //@ ghost
 //@ func mapStep[T, U any](r fp.Iterator[T], fn func(T) U, next bool) bool {
 //@ 	it := Map(r, fn)
-//@ 	c0 := verifspec.IterPos(r) == 0
+//@ 	c0 := verifspec.IterPos(r) == 0 && verifspec.IterProbes(r) == 0
 //@ 	verifspec.Havoc(it)
 //@ 	p0 := verifspec.IterPos(r)
 //@ 	want := p0 < verifspec.IterLen(r)
@@ -89,7 +89,7 @@ package iterator
 //@ }
 //@ func zipStep[T, U any](a fp.Iterator[T], b fp.Iterator[U], next bool) bool {
 //@ 	it := Zip(a, b)
-//@ 	c0 := verifspec.IterPos(a) == 0 && verifspec.IterPos(b) == 0
+//@ 	c0 := verifspec.IterPos(a) == 0 && verifspec.IterProbes(a) == 0 && verifspec.IterPos(b) == 0 && verifspec.IterProbes(b) == 0
 //@ 	verifspec.Havoc(it)
 //@ 	pa := verifspec.IterPos(a)
 //@ 	pb := verifspec.IterPos(b)
@@ -108,7 +108,7 @@ package iterator
 //@ }
 //@ func zip3Step[A, B, C any](a fp.Iterator[A], b fp.Iterator[B], c fp.Iterator[C], next bool) bool {
 //@ 	it := Zip3(a, b, c)
-//@ 	c0 := verifspec.IterPos(a) == 0 && verifspec.IterPos(b) == 0 && verifspec.IterPos(c) == 0
+//@ 	c0 := verifspec.IterPos(a) == 0 && verifspec.IterProbes(a) == 0 && verifspec.IterPos(b) == 0 && verifspec.IterProbes(b) == 0 && verifspec.IterPos(c) == 0 && verifspec.IterProbes(c) == 0
 //@ 	verifspec.Havoc(it)
 //@ 	pa := verifspec.IterPos(a)
 //@ 	pb := verifspec.IterPos(b)
@@ -128,7 +128,7 @@ package iterator
 //@ }
 //@ func zipWithIndexStep[A any](s fp.Iterator[A], next bool) bool {
 //@ 	it := ZipWithIndex(s)
-//@ 	c0 := verifspec.IterPos(s) == 0 && verifspec.Cell[int](it, "idx") == 0
+//@ 	c0 := verifspec.IterPos(s) == 0 && verifspec.IterProbes(s) == 0 && verifspec.Cell[int](it, "idx") == 0
 //@ 	verifspec.Havoc(it)
 //@ 	p0 := verifspec.IterPos(s)
 //@ 	verifspec.Assume(verifspec.Cell[int](it, "idx") == p0)
@@ -147,7 +147,7 @@ package iterator
 //@ }
 //@ func scanStep[A, B any](s fp.Iterator[A], zero B, f func(B, A) B, next bool) bool {
 //@ 	it := Scan(s, zero, f)
-//@ 	c0 := verifspec.IterPos(s) == 0 && verifspec.Cell[bool](it, "first") && verifspec.Eq(verifspec.W[B](verifspec.Cell[B](it, "sum")), verifspec.W[B](zero))
+//@ 	c0 := verifspec.IterPos(s) == 0 && verifspec.IterProbes(s) == 0 && verifspec.Cell[bool](it, "first") && verifspec.Eq(verifspec.W[B](verifspec.Cell[B](it, "sum")), verifspec.W[B](zero))
 //@ 	verifspec.Havoc(it)
 //@ 	p0 := verifspec.IterPos(s)
 //@ 	first := verifspec.Cell[bool](it, "first")
@@ -268,7 +268,7 @@ package iterator
 //@ 		return Empty[U]()
 //@ 	}
 //@ 	it := FlatMap(r, mf)
-//@ 	c0 := verifspec.IterPos(r) == 0 && verifspec.IterPos(inner) == 0
+//@ 	c0 := verifspec.IterPos(r) == 0 && verifspec.IterProbes(r) == 0 && verifspec.IterPos(inner) == 0 && verifspec.IterProbes(inner) == 0
 //@ 	verifspec.Havoc(r, inner)
 //@ 	lr := verifspec.IterLen(r)
 //@ 	li := verifspec.IterLen(inner)
@@ -313,7 +313,7 @@ package iterator
 //@ }
 //@ func filterMapStep[T, U any](r fp.Iterator[T], fn func(T) fp.Option[U], mode int, next bool) bool {
 //@ 	it := FilterMap(r, fn)
-//@ 	c0 := verifspec.IterPos(r) == 0
+//@ 	c0 := verifspec.IterPos(r) == 0 && verifspec.IterProbes(r) == 0
 //@ 	verifspec.Havoc(r)
 //@ 	lr := verifspec.IterLen(r)
 //@ 	if mode == 1 {
